@@ -330,6 +330,9 @@ func zzSrvBuild(suiteKind, certShape int, hasCV bool, schemeHash, schemeSig byte
 		ClientCAs: new(x509.CertPool),
 		Log:       zzSrvLog{},
 	}
+	if zzsymChoice("client_cas_unset", 2) == 1 {
+		sc.cfg.ClientCAs = nil // no pool configured means "the host's roots", not "skip the chain check"
+	}
 	if callbacks {
 		sc.hasVPC, sc.hasVConn = true, true
 		sc.cfg.VerifyPeerCertificate = func(raw [][]byte, chains [][]*x509.Certificate) error {
